@@ -77,6 +77,10 @@ CHECKS = {
    text="Recorded well-formed response streams are cut at any octet, mutated frame-wise, or interrupted by scripted adversaries, followed by silence / close / reset, with write failures on the client's side or Client.Close() at generated stages. Every RoundTrip must return exactly once within MaxResponseTime plus a margin (misses are reported with the client's goroutine dump), a success must equal the complete well-formed response an independent parser (x/net Framer + strict reference HPACK) finds on that stream in the octets actually delivered, follow-up requests on a fresh connection must get their own responses, no client loop may remain after Close, and the process must survive. Exploration: cut points and mutations are sampled; timing-dependent paths (timeouts, Close races) run with real but short timers.",
    note="Trusted: the reference parser of the delivered octets; wall-clock bound only as 'resolved within timeout + 4 s'.",
    ref="6.2 C12"),
+ "C18": dict(technique="property-based testing (rapid) of SETTINGS histories in both roles: invariants over the observed frames (ACK count at quiescence, frame lengths vs the limit in force, open-stream count, strict reference HPACK decoder sized to the advertised table)",
+   text="Generated sequences of SETTINGS frames (all parameters, repeats, unknown ids, boundary/zero/invalid values) interleaved with requests and responses whose header lists and bodies straddle the advertised sizes, against the server (scripted client peer) and against the client (scripted TLS server). Checked: every SETTINGS acknowledged exactly once by the next quiescent point, invalid values end the connection (server: RFC's code), no frame incl. HEADERS/CONTINUATION above the MAX_FRAME_SIZE in force, concurrently open streams within MAX_CONCURRENT_STREAMS, header blocks decodable under a strict decoder sized to HEADER_TABLE_SIZE with lowered sizes announced, the endpoint's own advertised frame size enforced on input, ENABLE_PUSH=0 advertised by the client and PUSH_PROMISE fatal. Exploration only.",
+   note="Trusted: strict reference HPACK decoder, scripted peers' ledgers; 'acknowledged in order' is checked as count-at-quiescence (ACK frames carry no identity).",
+   ref="6.2 C18"),
 }
 PENDING = {}  # id -> reason, for properties not claimed (yet)
 
